@@ -1464,6 +1464,47 @@ pub fn fam_eqdecide(seed: u64, tier: &str, index: u64) -> Scenario {
     Scenario { fam: "eqdecide".into(), id: index, opts, steps: g.steps, engine: true }
 }
 
+/// `optimise2` (C04): objectives whose values straddle zero. 2-4 variables with domains around
+/// zero, 1-3 random constraints, the objective a variable or a view with scale +-1 / +-2 and an
+/// offset, maximisation in two thirds of the scenarios, both procedures (the optimisers negate the
+/// objective internally when maximising: confusing the two orientations is invisible as long as
+/// all values are non-negative or the direction is minimisation).
+pub fn fam_optimise2(seed: u64, tier: &str, index: u64) -> Scenario {
+    let mut g = Gen::new(rng_for(seed, "optimise2", index), params(tier));
+    let nv = g.rng.gen_range(2..=4);
+    let mut vars = vec![];
+    for _ in 0..nv {
+        let k = g.rng.gen_range(1..=3);
+        let lo = -k - g.rng.gen_range(0..=1);
+        let hi = k + g.rng.gen_range(0..=1);
+        let mut vals: Vec<i32> = (lo..=hi).collect();
+        let sparse = vals.len() >= 4 && g.rng.gen_bool(0.25);
+        if sparse {
+            let _ = vals.remove(g.rng.gen_range(1..vals.len() - 1));
+        }
+        vars.push(g.add_int_var_with(vals, sparse));
+    }
+    for _ in 0..g.rng.gen_range(1..=3) {
+        let k = *["lin_le", "lin_ne", "bin_lt", "bin_ne", "lin_le", "alldiff", "abs", "max"].choose(&mut g.rng).unwrap();
+        let c = g.cons_of_kind(k);
+        g.post(c, false);
+    }
+    let v = vars[g.rng.gen_range(0..vars.len())];
+    let obj = match g.rng.gen_range(0..4) {
+        0 => View::var(v),
+        1 => View { v, s: -1, o: g.rng.gen_range(-2..=2) },
+        2 => View { v, s: 2, o: g.rng.gen_range(-3..=3) },
+        _ => View { v, s: *[1, -2].choose(&mut g.rng).unwrap(), o: g.rng.gen_range(-2..=2) },
+    };
+    let br = match g.rng.gen_range(0..3) {
+        0 => BrSpec { kind: "indep".into(), var: 2, val: *[1u8, 4, 2].choose(&mut g.rng).unwrap() },
+        _ => g.random_brancher(),
+    };
+    g.steps.push(Step::Optimise { br, maximise: index % 3 != 0, lus: (index / 3) % 2 == 0, obj, stop_at: None });
+    let opts = if g.rng.gen_bool(0.5) { Opts::default() } else { g.random_opts() };
+    Scenario { fam: "optimise2".into(), id: index, opts, steps: g.steps, engine: index % 4 == 0 }
+}
+
 /// `reif`: one constraint of the catalogue (index-driven kind) posted half-reified, reified or
 /// negated, with the reification literal free / forced before / forced after posting, all
 /// solutions iterated (C09).
@@ -2277,6 +2318,7 @@ pub fn generate(fam: &str, seed: u64, tier: &str, index: u64) -> Scenario {
         "planted_eq" => fam_planted_eq(seed, tier, index),
         "iterate2" => fam_iterate2(seed, tier, index),
         "eqdecide" => fam_eqdecide(seed, tier, index),
+        "optimise2" => fam_optimise2(seed, tier, index),
         "rootbounds" => fam_rootbounds(seed, tier, index),
         "interrupt_base" => fam_interrupt_base(seed, tier, index),
         other => panic!("harness: unknown family {other}"),
